@@ -131,7 +131,25 @@ def c15(run):
         e = rand_mat(rng, m, n, (1,), rng.choice((0.3, 0.5, 0.7)))
         wide.append("ctu %d %s" % (DEFAULT_MASK, mat_tokens(m, n, e)))
     run.batch("ctu-wide-and-tall", wide, "plain")
-    return dict(rule="wide/tall 1-3 x 5-8 matrices for the CTU test; exhaustive: every 0/1 matrix with <=%d rows and <=%d columns (incl. 0 rows/columns) x every (row,column) "
+    # structured: representations of R10 (complement-TU, and the only way to reach the R10 leaf of the decomposition), their row-xor
+    # images and one-line extensions; called with explicit parameters, with the library's own defaults (bit 23) and with params = NULL (bit 24)
+    struct = []
+    for _ in range(240 if quick else 4000):
+        M = [r[:] for r in rng.choice((R10_B, [[abs(v) for v in r] for r in R10_TU]))]
+        for _ in range(rng.choice((0, 0, 1, 2))):
+            r = rng.randrange(len(M))
+            M = [[(v ^ M[r][j]) if i != r else v for j, v in enumerate(row)] for i, row in enumerate(M)]
+        if rng.random() < 0.3:
+            M.append(rng.choice(M)[:] if rng.random() < 0.5 else [int(j == rng.randrange(5)) for j in range(len(M[0]))])
+        if rng.random() < 0.3:
+            k = rng.randrange(len(M[0]))
+            M = [row + [row[k] if rng.random() < 0.8 else 1 - row[k]] for row in M]
+        pr = list(range(len(M))); pc = list(range(len(M[0]))); rng.shuffle(pr); rng.shuffle(pc)
+        M = [[M[i][j] for j in pc] for i in pr]
+        mask = DEFAULT_MASK | rng.choice((0, 1 << 23, 1 << 24))
+        struct.append("ctu %d %s" % (mask, mat_tokens(len(M), len(M[0]), [v for row in M for v in row])))
+    run.batch("ctu-structured-default-parameters", struct, "plain")
+    return dict(rule="structured: representations of R10, row-xor images and one-line extensions with explicit parameters, the library's default parameters and params=NULL; wide/tall 1-3 x 5-8 matrices for the CTU test; exhaustive: every 0/1 matrix with <=%d rows and <=%d columns (incl. 0 rows/columns) x every (row,column) "
                 "choice incl. 'none' for the complement op; every such matrix for the CTU test; plus seeded random up to 7x7 under "
                 "ASan/UBSan. An op is non-trivial and distinct when the judge accepted it (exact equality with the model / verdict "
                 "equal to the definition and witness validated) and its op line is new." % (maxm, maxn),
@@ -902,7 +920,7 @@ def c17(run):
     for (m, n) in sh:
         for e in all_mats(m, n, (-1, 0, 1)):
             mt = mat_tokens(m, n, e)
-            lines.append("balanced %d %d %d 1 %s" % (rng.choice((0, 1)), rng.randint(0, 1), rng.randint(0, 1), mt))
+            lines.append("balanced %d %d %d 1 %s" % (rng.choice((0, 1, 0, 1, 3, 4)), rng.randint(0, 1), rng.randint(0, 1), mt))
     run.batch("exhaustive-small", lines, "plain")
     more = []
     for _ in range(2000 if quick else 40000):
@@ -910,7 +928,7 @@ def c17(run):
         e = rand_mat(rng, m, n, (1, -1), rng.choice((0.3, 0.5)))
         mt = mat_tokens(m, n, e)
         sp = rng.randint(0, 1)
-        alg = rng.choice((0, 1))
+        alg = rng.choice((0, 1, 0, 1, 3, 4))      # 3: the library's default parameters untouched, 4: params = NULL
         more.append("balanced %d %d 0 %d %s" % (alg, sp, rng.randint(0, 1), mt))
         more.append("balanced %d %d 1 %d %s" % (alg, sp, rng.randint(0, 1), mt))
     for _ in range(300 if quick else 3000):
@@ -1044,6 +1062,9 @@ def c20(run):
             pr = list(range(m)); pc = list(range(n)); rng.shuffle(pr); rng.shuffle(pc)
             if m and n:
                 lines.append("mat permute c %s %d %d %s %s" % (mt, m, n, " ".join(map(str, pr)), " ".join(map(str, pc))))
+                # one of the two permutations absent (NULL = identity)
+                lines.append("mat permute c %s 0 %d %s" % (mt, n, " ".join(map(str, pc))))
+                lines.append("mat permute c %s %d 0 %s" % (mt, m, " ".join(map(str, pr))))
     run.batch("utilities+roundtrip-small", lines, "plain")
     more = []
     for _ in range(1500 if quick else 20000):
@@ -1069,8 +1090,43 @@ def c20(run):
         e = [val() if rng.random() < 0.6 else 0 for _ in range(m * n)]
         what = rng.choice(("transpose", "copy", "support", "ssupport", "ssupport", "tochr", "tochr", "isbinary", "isternary"))
         more.append("mat %s d %d %s" % (what, eps, mat_tokens(m, n, e)))
+    # slice / permute of all three value types, each permutation present or NULL
+    for _ in range(2000 if quick else 30000):
+        m, n = rng.randint(1, 9), rng.randint(1, 9)
+        ty = rng.choice("cid")
+        if ty == "d":
+            e = [rng.choice((64, -64, 128, 32, -96, 6400)) if rng.random() < 0.5 else 0 for _ in range(m * n)]
+            head = "d 0"
+        else:
+            e = rand_mat(rng, m, n, (1, -1, 2, 100) if ty == "c" else (1, -1, 1000, -2147483648), rng.choice((0.2, 0.5, 0.9)))
+            head = ty
+        mt = mat_tokens(m, n, e)
+        if rng.random() < 0.7:
+            pr = list(range(m)); pc = list(range(n)); rng.shuffle(pr); rng.shuffle(pc)
+            mode = rng.choice((0, 1, 2))
+            if mode == 1: pr = []
+            if mode == 2: pc = []
+            more.append(" ".join(("mat permute %s %s %d %d %s %s" % (head, mt, len(pr), len(pc), " ".join(map(str, pr)), " ".join(map(str, pc)))).split()))
+        else:
+            rs = sorted(rng.sample(range(m), rng.randint(0, m))); cs = sorted(rng.sample(range(n), rng.randint(0, n)))
+            more.append(" ".join(("mat slice %s %s %d %d %s %s" % (head, mt, len(rs), len(cs), " ".join(map(str, rs)), " ".join(map(str, cs)))).split()))
     more += text_streams(rng, 6000 if quick else 100000)
     run.batch("roundtrip+malformed-text", more, "asan")
+    # every other producer of matrices the statement lists: pivots and pivot sequences (C13), k-sums (C12), complements (C15),
+    # decomposition nodes (C03): a sample of those checks' own op lines; every matrix in their results is dumped as raw CSR and must be consistent
+    prod = []
+    fam = {}
+    for pid, k in (("C13", 4000), ("C12", 2500), ("C15", 2500), ("C03", 600)):
+        cr = CollectRun(pid, "quick", run.seed)
+        try:
+            CHECKS[pid](cr)
+        except Exception:
+            pass
+        ls = [l for l in cr.lines if not l.startswith("ctu ")]
+        fam[pid] = len(ls)
+        k = k if quick else 8 * k
+        prod += rng.sample(ls, k) if len(ls) > k else ls
+    run.batch("other-producers", prod, "plain")
     # (c) all byte strings over a small alphabet up to length L for the chr dense and sparse readers
     alpha = "012 -\n.a"
     L = 4 if quick else 6
@@ -1085,8 +1141,9 @@ def c20(run):
                 bs.append("parse sparse c %s" % hexs(s))
     run.batch("all-byte-strings", bs, "plain")
     return dict(rule="(a) every matrix any op of this run returns is dumped as raw CSR arrays and checked with Csr.consistent; utilities "
-                "(transpose, copy, support, signed support, conversions, slice, permute) on every {-1,0,2} matrix of the small shapes are compared "
-                "exactly with the dense model; (b) dense/sparse/submatrix writers: the written bytes are parsed by the Lean format model and by "
+                "(transpose, copy, support, signed support, conversions, slice, permute with either permutation NULL) on every {-1,0,2} matrix of the small shapes are compared "
+                "exactly with the dense model; slice/permute of char, int and double matrices up to 9x9; a sample of the op lines of the pivot (single and "
+                "sequences), k-sum, complement and decomposition checks (other-producers: every returned matrix must be consistent and equal to the model's); (b) dense/sparse/submatrix writers: the written bytes are parsed by the Lean format model and by "
                 "the library itself, both must give the original object; (c) token-level streams (valid, truncated, bad token, duplicate "
                 "position, out-of-range index, out-of-range value, trailing token) and every byte string over the alphabet '012 -\\n.a' up to "
                 "length %d: the reader must answer err:INPUT exactly when the format model rejects the text, else the same matrix. "
@@ -1439,6 +1496,20 @@ def timelimited_ops(rng, quick):
         mm, nn, e = sum_blocks(rng, True, rng.randint(1, 2))
         ops.append("tu %d %s" % (DEFAULT_MASK | WANT_TREE | strategy(rng.randrange(5)), mat_tokens(mm, nn, e)))
         ops.append("treeseq 1 %d %s 1 c %d 3" % (DEFAULT_MASK | B_STOP_IRR, mat_tokens(mm, nn, e), DEFAULT_MASK))
+    # 3-connected regular matrices that are neither graphic nor cographic: the only inputs on which the nested-minor sequence and both
+    # phases of the 3-separation search (each with its own clock reads) run
+    deep = [o.replace("@want=yes ", "") for o in regular_constructed_ops(rng, 8 if quick else 100, 0, 3, 6)]
+    # a regular 8x7 matrix whose only 3-separations have one side almost outside the first minor of the nested sequence: found in the
+    # second phase of the search only (most sums of two large pieces are found in the first phase); random representations
+    LATE3SEP = [[1,0,1,0,1,1,1],[0,1,0,0,1,1,0],[0,1,0,1,1,0,0],[1,0,0,0,1,1,1],[0,0,1,0,1,1,1],[0,1,1,1,0,0,0],[1,0,0,0,1,1,0],[0,1,1,1,0,0,1]]
+    for _ in range(6 if quick else 60):
+        M = represent(rng, [r[:] for r in LATE3SEP], False, rng.choice((0, 0, 1, 2)))
+        deep.append("regular %d %s" % ((DEFAULT_MASK | strategy(rng.randrange(5))) & ~B_TERNARY, mat_tokens(len(M), len(M[0]), flat_of(M))))
+    for o in deep:
+        ops.append(o)
+        if rng.random() < 0.5:
+            tk = o.split(" ")
+            ops.append("tu %d %s" % ((int(tk[1]) | B_TERNARY | rng.choice((0, WANT_TREE))), " ".join(tk[2:])))
     return ops
 
 
@@ -1458,8 +1529,9 @@ def c18(run):
             continue
         total_reads += reads
         ks = list(range(1, reads + 1))
-        if len(ks) > per_op_cap:
-            ks = sorted(rng.sample(ks, per_op_cap - 10) + ks[:5] + ks[-5:])
+        cap = 1200 if reads > 150 else per_op_cap      # long runs (decompositions with a 3-separation search): every read up to 1200
+        if len(ks) > cap:
+            ks = sorted(set(rng.sample(ks, cap - 10) + ks[:5] + ks[-5:]))
         exp = "~".join(payload)
         for k in ks:
             inj.append("@fresh @clk=%d @expect=%s %s" % (k, exp, op))
@@ -1469,7 +1541,7 @@ def c18(run):
     sites = sorted(O.TIMEOUT_SITES)
     return dict(rule="for each time-limited entry point (TU x3 algorithms with/without submatrix and tree, regular, complete-decomposition "
                 "history, graphic, network, Camion, SP x4, balanced, CTU, equimodular x4) and each seeded input: one unlimited run counts the "
-                "clock reads N; then for every k<=N (at most %d per input, including the first and last five) a run in a fresh environment with "
+                "clock reads N; then for every k<=N (at most %d per input, but up to 1200 for runs with more than 150 reads, including the first and last five) a run in a fresh environment with "
                 "the clock jumping forward at the k-th read: status must be OKAY with the identical result or TIMEOUT with no result object, "
                 "scratch stack balanced, no leak at exit (LeakSanitizer), and the same environment must then give the unlimited answer without "
                 "a limit. Non-trivial = judged ok; distinct by op line." % per_op_cap,
@@ -2056,7 +2128,7 @@ def c10(run):
     rng = run.rng
     lines = []
     ninst = 240 if quick else 2400
-    maxsize = 100 if quick else 300
+    maxsize = 100 if quick else 160      # (300 ran into the per-op watchdog on a loaded machine: assertion builds re-check consistency at every step)
     for k in range(ninst):
         signed = rng.random() < 0.5
         small = rng.random() < 0.25
